@@ -40,6 +40,11 @@ type Program struct {
 	closureOf  map[*ssa.Function]*ssa.MakeClosure
 
 	callSites map[*ssa.Function][]ssa.CallInstruction // static call sites per function (lazily built)
+	curEnv    *pathEnv                                  // path knowledge of the search step being evaluated (pathsense.go)
+	// anchors found under a new name (old name → function); see resolveRenamedAnchors
+	renamed   map[string]*ssa.Function
+	canonName map[*ssa.Function]string // renamed anchor → the (last segment of the) name rules use
+	Renames   []string
 	// helpers whose every use was inlined (they are not part of the normal form)
 	inlinedAway map[*ssa.Function]bool
 
@@ -229,6 +234,10 @@ func (p *Program) Func(rel, name string) *ssa.Function {
 	}
 
 	f := sp.Func(name)
+	if f == nil {
+		f = p.renamed[rel+"."+name]
+	}
+
 	p.MarkAnchor(f)
 
 	return f
@@ -267,6 +276,16 @@ func (p *Program) Method(rel, recv, name string) *ssa.Function {
 		}
 	}
 
+	// renamed? (the table records pointer- and value-receiver spellings)
+	for old, f := range p.renamed {
+		if strings.HasSuffix(old, "."+name) && (strings.HasPrefix(old, "(*"+rel+"."+recv+")") || strings.HasPrefix(old, "("+rel+"."+recv+")") ||
+			strings.HasPrefix(old, "(*"+rel+"."+recv+"[") || strings.HasPrefix(old, "("+rel+"."+recv+"[")) {
+			p.MarkAnchor(f)
+
+			return f
+		}
+	}
+
 	return nil
 }
 
@@ -280,8 +299,9 @@ func (p *Program) Methods(rel, recv string) []*ssa.Function {
 	var out []*ssa.Function
 
 	for i := range n.NumMethods() {
-		if f := p.SSA.FuncValue(n.Method(i)); f != nil {
-			p.MarkAnchor(f)
+		// (enumeration does not make a method an anchor: a helper method that the normal form inlined
+		// everywhere is not listed, one that is still called is listed like any other)
+		if f := p.SSA.FuncValue(n.Method(i)); f != nil && !p.inlinedAway[f] {
 			out = append(out, f)
 		}
 	}
